@@ -451,8 +451,13 @@ theorem roots_exact (p : Plan) (fs : FSnap) (multi : Bool) (hl : NoLimit p) :
             · exact hdisj i h i hi rfl)
       exact ih
 
-/-- the root "/" is excluded for a reason (D58): `calc_depth` counts slashes, and "/" and "/usr" both
-    have one, so a child of "/" is not seen as one level deeper -/
-theorem root_slash_counterexample : calcDepth (childCanon ['/'] (ofS "usr")) = calcDepth ['/'] := by decide
+/-- **the root directory `/`**: an entry directly inside it is on level 1 like under any other root (D58 fix: `calc_depth`
+    counted slashes, `/` and `/usr` both have one, and everything below the root `/` was one level off; the walker's
+    other theorems speak of canonical directories longer than one character, this is the remaining case) -/
+theorem root_slash_child_level (name : Str) (hn : ¬ name.contains '/') (hne : name ≠ []) :
+    calcDepth (childCanon ['/'] name) - calcDepth ['/'] + 1 = 2 :=
+  depth_child_of_root name hn hne
+
+example : calcDepth (childCanon ['/'] (ofS "usr")) = calcDepth ['/'] + 1 := by decide
 
 end Fsel.C01
